@@ -51,7 +51,7 @@ def small_patterns(ctx: Ctx, maxcuts):
     with open(os.path.join(work, "MC_Pat.tla"), "w") as f:
         f.write(f"---- MODULE MC_Pat ----\nEXTENDS Framing\nLensDef == <<{', '.join(map(str, SMALL))}>>\n====\n")
     with open(os.path.join(work, "MC_Pat.cfg"), "w") as f:
-        f.write(f"SPECIFICATION Spec\nCONSTANTS Lens <- LensDef\n MaxCuts = {maxcuts}\n Greedy = TRUE\nINVARIANT C03_Prefix\nINVARIANT C03_CloseIsClose\nINVARIANT Export\n")
+        f.write(f"SPECIFICATION Spec\nCONSTANTS Lens <- LensDef\n MaxCuts = {maxcuts}\n Greedy = TRUE\n WakeOnArrivalOnly = FALSE\nINVARIANT C03_Prefix\nINVARIANT C03_CloseIsClose\nINVARIANT Export\n")
     r = must_ok(run_tlc("MC_Pat", "MC_Pat.cfg", workdir=work, workers=1, timeout=3000, spec_dir=work))
     ctx.add_tlc(r)
     if r.violated:
@@ -129,7 +129,7 @@ def send_pattern(sock, data: bytes, writes, closed, gap):
 class AcceptorLab:
     """Real pynetdicom acceptor; records, per association, the raw PDUs it reports and the FSM events."""
 
-    def __init__(self, network_timeout=5):
+    def __init__(self, network_timeout=5, tls=False):
         from pynetdicom import AE, evt
 
         self.ae = AE("ACCEPTOR")
@@ -141,7 +141,14 @@ class AcceptorLab:
         self.log = {}
         self.lock = threading.Lock()
         hs = [(evt.EVT_DATA_RECV, self._data), (evt.EVT_FSM_TRANSITION, self._fsm), (evt.EVT_C_ECHO, self._echo)]
-        self.server = self.ae.start_server(("127.0.0.1", 0), block=False, evt_handlers=hs)
+        sslctx = None
+        if tls:
+            import ssl
+            from common import REPO
+            sslctx = ssl.create_default_context(ssl.Purpose.CLIENT_AUTH)
+            sslctx.load_cert_chain(REPO + "/pynetdicom/tests/cert_files/server.crt", REPO + "/pynetdicom/tests/cert_files/server.key")
+        self.tls = tls
+        self.server = self.ae.start_server(("127.0.0.1", 0), block=False, evt_handlers=hs, ssl_context=sslctx)
         self.port = self.server.socket.getsockname()[1]
 
     def _rec(self, event):
@@ -183,6 +190,10 @@ def run_acceptor_case(lab, frames, writes, closed, w, gap, on_rq=False):
     s = socket.create_connection(("127.0.0.1", lab.port), timeout=5)
     s.setsockopt(socket.IPPROTO_TCP, socket.TCP_NODELAY, 1)
     port = s.getsockname()[1]
+    if getattr(lab, "tls", False):
+        # every write below becomes one TLS record: what the peer wrote in one piece reaches the reader's TLS layer in one piece
+        from stall_lab import client_tls
+        s = client_tls().wrap_socket(s, server_hostname="localhost")
     try:
         if on_rq:
             send_pattern(s, rq, writes, closed, gap)
@@ -195,6 +206,17 @@ def run_acceptor_case(lab, frames, writes, closed, w, gap, on_rq=False):
                 raise MachineryError("no A-ASSOCIATE-AC from the acceptor lab")
             send_pattern(s, b"".join(frames), writes, closed, gap)
             sent_frames = frames
+        # what was written must be delivered without any further action of the peer: before doing anything else (reading,
+        # closing - either wakes a reader that sleeps on the socket), wait until the acceptor has reported every frame, at most
+        # 3 s (well inside the 5 s timeouts); the frames reported by then are the ones judged
+        snap = None
+        if not closed:
+            t0 = time.time()
+            while time.time() - t0 < 3.0:
+                snap = len(lab.lookup(port)["data"]) - (0 if on_rq else 1)
+                if snap >= len(sent_frames):
+                    break
+                time.sleep(0.005)
         # let the acceptor finish: read whatever it answers until it closes or stays silent
         t0 = time.time()
         while time.time() - t0 < 3.0:
@@ -203,9 +225,20 @@ def run_acceptor_case(lab, frames, writes, closed, w, gap, on_rq=False):
                 break
     finally:
         s.close()
-    time.sleep(0.05)
+    # the acceptor ends the association on its own in every case (release, closed connection, idle timeout 5 s): wait for its
+    # threads rather than for a fixed time (under load the end-of-stream can be processed long after the peer's close)
+    deadline = time.time() + 9
+    while time.time() < deadline:
+        rec = lab.lookup(port)
+        a = rec.get("assoc")
+        if a is not None and not a.dul.is_alive():       # (the association thread itself may linger for acse_timeout)
+            break
+        time.sleep(0.01)
+    time.sleep(0.02)
     rec = lab.lookup(port)
     got = rec["data"] if on_rq else rec["data"][1:]
+    if snap is not None:
+        got = got[:max(snap, 0)]
     delivered, intact = [], True
     for k, d in enumerate(got):
         delivered.append(k + 1)
@@ -291,12 +324,23 @@ def run(ctx: Ctx) -> int:
     with open(os.path.join(ctx.work, "MC_Small.tla"), "w") as f:
         f.write("---- MODULE MC_Small ----\nEXTENDS Framing\nLensDef == <<8, 9, 7>>\n====\n")
     with open(os.path.join(ctx.work, "MC_Small.cfg"), "w") as f:
-        f.write(f"SPECIFICATION Spec\nCONSTANTS Lens <- LensDef\n MaxCuts = {4 if thorough else 3}\n Greedy = FALSE\nINVARIANT C03_Prefix\nINVARIANT C03_CloseIsClose\n")
+        f.write(f"SPECIFICATION Spec\nCONSTANTS Lens <- LensDef\n MaxCuts = {4 if thorough else 3}\n Greedy = FALSE\n WakeOnArrivalOnly = FALSE\nINVARIANT C03_Prefix\nINVARIANT C03_CloseIsClose\n")
     r = must_ok(run_tlc("MC_Small", "MC_Small.cfg", workdir=ctx.work, workers=16, timeout=3000, spec_dir=ctx.work))
     ctx.add_tlc(r)
     if r.violated:
         ctx.violation({"where": "model", "invariant": r.violated}, f"Framing.tla violates {r.violated}", r.trace)
         return ctx.finish(rule="model violated its own invariants")
+    # liveness: what has arrived is consumed without a further action of the peer; a reader woken by arrivals only is refuted
+    for wake, want in (("FALSE", None), ("TRUE", "C03_Prompt")):
+        with open(os.path.join(ctx.work, f"MC_Live_{wake}.cfg"), "w") as f:
+            f.write(f"SPECIFICATION FairSpec\nCONSTANTS Lens <- LensDef\n MaxCuts = 2\n Greedy = FALSE\n WakeOnArrivalOnly = {wake}\nPROPERTY C03_Prompt\n")
+        rl = must_ok(run_tlc("MC_Small", f"MC_Live_{wake}.cfg", workdir=ctx.work, workers=4, timeout=1500, spec_dir=ctx.work))
+        ctx.add_tlc(rl)
+        if rl.violated != want:
+            if want is None:
+                ctx.violation({"where": "model", "invariant": rl.violated}, f"Framing.tla violates {rl.violated}", rl.trace)
+                return ctx.finish(rule="model violated its own invariants")
+            raise MachineryError(f"a reader woken by arrivals only is not refuted by TLC ({rl.violated!r})")
     frames = stream_frames()
     lens = [len(f) for f in frames]
     small = small_patterns(ctx, 4 if thorough else 3)
@@ -350,7 +394,17 @@ def run(ctx: Ctx) -> int:
         jobs.append(("acc-big", (c, nb - c, 10), False, nb + 10, 0.003))
         jobs.append(("acc-big", (c,), True, c, 0.003))
     jobs.append(("acc-big", (nb, 4), True, nb + 4, 0.003))
+    # the same stream over TLS (pynetdicom as TLS acceptor): each write of the peer is one TLS record, so several PDUs written in
+    # one piece arrive inside one record - whole stream in one write, split at every PDU boundary, and sampled cuts
+    bounds = [sum(lens[:k]) for k in range(1, len(lens))]
+    tls_pats = [((total,), False, total)] + [((b, total - b), False, total) for b in bounds]
+    tls_pats += [((bounds[0], bounds[1] - bounds[0], total - bounds[1]), False, total), ((bounds[1], bounds[2] - bounds[1], total - bounds[2]), False, total)]
+    for c in rng.sample(range(1, total), 20 if thorough else 6):
+        tls_pats.append(((c, total - c), False, total))
+    for (wr, cl, w) in tls_pats:
+        jobs.append(("acc-tls", wr, cl, w, 0.003))
     lab = AcceptorLab()
+    tls_lab = AcceptorLab(tls=True)
     obs, lock = [], threading.Lock()
     errors = []
 
@@ -359,6 +413,9 @@ def run(ctx: Ctx) -> int:
             try:
                 if kind in ("acc", "acc-slow"):
                     o = run_acceptor_case(lab, frames, wr, cl, w, gap)
+                elif kind == "acc-tls":
+                    o = run_acceptor_case(tls_lab, frames, wr, cl, w, gap)
+                    o["role"] = "acceptor/tls"
                 elif kind == "acc-big":
                     o = run_acceptor_case(lab, big, wr, cl, w, gap)
                 elif kind == "rq":
@@ -375,6 +432,7 @@ def run(ctx: Ctx) -> int:
     [t.start() for t in ts]
     [t.join() for t in ts]
     lab.close()
+    tls_lab.close()
     if errors:
         raise MachineryError(errors[0])
     for k, o in enumerate(obs):
